@@ -334,6 +334,21 @@ def codecClause (C : Compression) (s : SourceSegment) : Bool :=
   if Gen.STACK_CODEC_CLAUSE_IS_NE = 1 then decide (s.store.decompId ≠ C.id)
   else decide (s.store.decompId = C.id)
 
+/-- `AliveBitSet::num_alive_docs` over `max_doc` documents -/
+def numAlive (alive : Nat → Bool) (maxDoc : Nat) : Nat := ((List.range maxDoc).filter alive).length
+
+/-- `intersect_alive_bitset`: the segment's own deletes and the caller's filter (either may be absent) -/
+def intersectAlive (own custom : Option (Nat → Bool)) : Nat → Bool :=
+  fun i => (own.map (· i)).getD true && (custom.map (· i)).getD true
+
+/-- a source segment as `SegmentReader::open_with_custom_alive_set` presents it to the merger
+(`merge_filtered_segments`; an ordinary merge has `custom = none`): `has_deletes()` is
+`max_doc - num_docs > 0` with `num_docs` counted on the intersected bitset -/
+def SourceSegment.ofReader (store : StoreFile) (codec : Compression) (own custom : Option (Nat → Bool))
+    (maxDoc : Nat) : SourceSegment :=
+  { store := store, codec := codec, alive := intersectAlive own custom,
+    hasDeletes := decide (maxDoc - numAlive (intersectAlive own custom) maxDoc > 0) }
+
 /-- the guard of the stacking shortcut in `write_storable_fields` (true = copy per document):
 `reader.has_deletes() || block_checkpoints().take(7).count() < 6 || decompressor != compressor` -/
 def mustCopy (C : Compression) (minBlocks : Nat) (s : SourceSegment) : Bool :=
